@@ -277,6 +277,11 @@ class real_pools:
         DelayPool.workers, DelayPool.seed, DelayPool.calls = self.workers, self.seed, 0
         self.saved = (multiprocessing.Pool, importlib.import_module("amr_kitchen.chef.chef").Pool,
                       sys.modules["amr_kitchen.chk2plt.chk2plt"].Pool)
+        # the machine "has" as many CPUs as the pool has workers (code that sizes batches from the CPU count sees it too)
+        import os as _os
+        self.saved_cpu = (_os.cpu_count, multiprocessing.cpu_count)
+        _os.cpu_count = lambda: self.workers
+        multiprocessing.cpu_count = lambda: self.workers
         multiprocessing.Pool = DelayPool
         importlib.import_module("amr_kitchen.chef.chef").Pool = DelayPathos
         sys.modules["amr_kitchen.chk2plt.chk2plt"].Pool = DelayPool
@@ -286,6 +291,8 @@ class real_pools:
         import multiprocessing
         import importlib
         multiprocessing.Pool, importlib.import_module("amr_kitchen.chef.chef").Pool, sys.modules["amr_kitchen.chk2plt.chk2plt"].Pool = self.saved
+        import os as _os
+        _os.cpu_count, multiprocessing.cpu_count = self.saved_cpu
         return False
 
 
